@@ -175,10 +175,10 @@ def rand_prog(rnd):
         return out
 
     def node(d):
-        b = block(d, rnd.randrange(1, 4))
+        b = block(d, rnd.randrange(2, 5))
         r = rnd.random()
         if r < 0.7:
-            m = {k: rnd.randrange(3) for k in range(3)}
+            m = dict(zip(range(3), rnd.choice([(1, 0, 2), (1, 2, 0), (2, 1, 0), (0, 2, 1), (1, 1, 2), (0, 1, 2)])))
             e = rename_term(b, m)
             if rnd.random() < 0.15 and e:
                 e = e[:-1] + [rnd.choice(ATOMS[:4])]
